@@ -51,6 +51,15 @@ def main():
         print(v.msg)
         print("VIOLATION property=%s replay=%s%s" % (pid, v.replay, " no-failing-input-found" if v.no_input else ""))
         return 1
+    except __import__("subprocess").TimeoutExpired as t:
+        # a harness that did not finish: the real code (or the model) loops on some generated case
+        rp = core.write_replay(pid, "timeout", {"broken": "a harness did not terminate within its time limit", "cmd": [str(x) for x in (t.cmd if isinstance(t.cmd, (list, tuple)) else [t.cmd])],
+                                                "limit_s": t.timeout, "seed": seed, "tier": a.tier, "stdout_tail": (t.stdout or b"")[-2000:].decode("utf-8", "replace") if isinstance(t.stdout, bytes) else str(t.stdout or "")[-2000:]})
+        core.write_evidence(pid, a.tier, seed, level, {"obligations": 1, "discharged": 0, "checker_cmd": "harness", "trusted_base": core.TRUSTED_BASE,
+                                                      "evaluations": 1, "distinct_nontrivial": 0, "explanation": "timeout: %s" % str(t)[:500]}, time.time() - t0, 1)
+        print("a harness did not terminate within %s s: %s" % (t.timeout, str(t.cmd)[:300]))
+        print("VIOLATION property=%s replay=%s" % (pid, rp))
+        return 1
     except core.BuildBroken as b:
         rp = core.write_replay(pid, "tie-broken-build", {"broken": "the correspondence harness no longer builds against /repo", "detail": str(b)})
         core.write_evidence(pid, a.tier, seed, level, {"obligations": 1, "discharged": 0, "checker_cmd": "build", "trusted_base": core.TRUSTED_BASE,
